@@ -39,6 +39,8 @@ INTERNAL = {
 }
 CLI_INTERNAL = {"warning_name.startswith('no-')": "CLI flag", "lst_file == '-.lst'": "derived name"}
 CASED_TABLES = {"REGISTER_NAMES", "BASES", "TABLE"}
+# attributes whose values are literals of the code wherever they are compared (operator metadata given to @operator)
+CODE_ATTRS = {"associativity": "operator metadata: a literal argument of @operator, not text of the source file"}
 
 
 def cased(v):
@@ -140,6 +142,8 @@ def rule_G6(ck):
                 sinks.append((n, n.slice, norm_text(n)))
         for node, var, text in sinks:
             internal = reason != "source" and reason is not None
+            if isinstance(var, ast.Attribute) and var.attr in CODE_ATTRS:
+                internal, reason = True, CODE_ATTRS[var.attr]
             if q == "_cli::main_cli":
                 internal = text in CLI_INTERNAL
             ck.instance(("sink", q, text), {"site": q, "comparison": text[:80], "kind": "internal: " + str(reason or CLI_INTERNAL.get(text)) if internal else "source text"}, fn=q)
